@@ -20,7 +20,7 @@ def nodes():
 
 def gather(args):
     """runs in a worker: returns per-source observations"""
-    srcs, dsts, prefix, suffix, mcast, mcsrc = args
+    srcs, dsts, prefix, suffix, mcast, mcsrc, lvls = args
     s = sim.Sched()
     air = sim.Air(s)
     sim.install(s)
@@ -38,6 +38,8 @@ def gather(args):
                 n.address_suffix = bytearray(suffix)
             n.allow_multicast = mcast
             n.node_address = a  # public way to re-derive the pipe addresses
+        if lvls is not None:
+            n.multicast_level = lvls[a]         # a node may listen to another level's multicasts; routing must not care
         phys = [list(c.addr[0x0A]), list(c.addr[0x0B])] + [[c.r[0x0A + p]] + list(c.addr[0x0B][1:]) for p in range(2, 6)]
         en = c.r[2]
         tx = {}
@@ -62,16 +64,16 @@ def gather(args):
                     pass
                 mc.append(air.log[0]["addr"] if air.log else None)
         air.chips.remove(c)
-        out.append((a, phys, en, tx, mc))
+        out.append((a, phys, en, tx, mc, n.multicast_level))
     return out
 
 
-def build_tables(addrs, dsts, prefix, suffix, mcast, mcsrc, ex):
+def build_tables(addrs, dsts, prefix, suffix, mcast, mcsrc, ex, lvls=None):
     chunks = [addrs[i::64] for i in range(64)]
     rows = {}
-    for res in ex.map(gather, [(c, dsts, prefix, suffix, mcast, set(mcsrc)) for c in chunks]):
-        for (a, phys, en, tx, mc) in res:
-            rows[a] = (phys, en, tx, mc)
+    for res in ex.map(gather, [(c, dsts, prefix, suffix, mcast, set(mcsrc), lvls) for c in chunks]):
+        for (a, phys, en, tx, mc, lv) in res:
+            rows[a] = (phys, en, tx, mc, lv)
     A, aidx = [], {}
 
     def intern(b):
@@ -93,7 +95,7 @@ def build_tables(addrs, dsts, prefix, suffix, mcast, mcsrc, ex):
             if ownN[k] == 0:
                 ownN[k], ownP[k] = index[a], p
     return dict(addrs=addrs, dsts=[index[d] for d in dsts], A=A, phys=phys, en=[rows[a][1] for a in addrs], tx=tx, mc=mc,
-                mcsrc=[index[a] for a in mcsrc], ownN=ownN, ownP=ownP, mcast=mcast,
+                mcsrc=[index[a] for a in mcsrc], ownN=ownN, ownP=ownP, mcast=mcast, lvl=[rows[a][4] for a in addrs],
                 prefix=0xCC if prefix is None else prefix,
                 suffix=[0xC3, 0x3C, 0x33, 0xCE, 0x3E, 0xE3] if suffix is None else list(suffix))
 
@@ -117,14 +119,17 @@ def run(chk):
         bs = rng.sample(pool, 7)
         variants.append(("random distinct bytes #%d, multicast on" % k, bs[0], bs[1:], True, addrs if not quick else picks))
     variants.append(("default bytes, multicast off", None, None, False, addrs if not quick else picks))
+    lv = {a: rng.randrange(5) for a in addrs}
+    variants.append(("default bytes, multicast on, multicast_level re-assigned per node", None, None, True, addrs if not quick else picks, lv))
     if not quick:
         bs = rng.sample(pool, 7)
         variants.append(("random distinct bytes, multicast off", bs[0], bs[1:], False, addrs))
     mcsrc = sorted(set([0, 0o1, 0o2, 0o5, 0o11, 0o21, 0o15, 0o111, 0o321, 0o1111, 0o5432] + (rng.sample(addrs, 40) if quick else addrs)))
     wd = tlc.workdir("c04")
     with ProcessPoolExecutor(16) as ex:
-        for vi, (name, prefix, suffix, mcast, dsts) in enumerate(variants):
-            tab = build_tables(addrs, dsts, prefix, suffix, mcast, mcsrc, ex)
+        for vi, var in enumerate(variants):
+            name, prefix, suffix, mcast, dsts = var[:5]
+            tab = build_tables(addrs, dsts, prefix, suffix, mcast, mcsrc, ex, var[5] if len(var) > 5 else None)
             path = os.path.join(wd, "table_%d.json" % vi)
             with open(path, "w") as f:
                 json.dump(tab, f, separators=(",", ":"))
@@ -172,8 +177,10 @@ def run(chk):
             if vi == 0:
                 chk.sample(dict(variant=name, node=oct(addrs[100]), pipes=[tab["A"][i - 1] for i in tab["phys"][100]],
                                 tx_to_0o5=tab["A"][tab["tx"][100][addrs.index(0o5)] - 1]))
-            if not chk.violations:
-                os.remove(path)
+            if chk.violations:
+                import shutil
+                shutil.copy(path, os.path.join(chk.wd, os.path.basename(path)))
+            os.remove(path)
     chk.exhaustive = not quick
     chk.assumptions += ["phantom acceptor ACKs every transmission so that only the first transmission of each write() is observed",
                         "interning of 5-byte addresses by the harness is an equality-preserving renaming; owner claims are verified by TLC"]
